@@ -643,7 +643,7 @@ fn explore_pair(p: &Pair, func: usize, prop: Prop, tier: Tier, chunk: Option<(us
         }
         let ns = exponents(tier);
         // powi is linear in |n|: give it a budget that lets moderate exponents finish and cuts the rest
-        set_limit(if tier == Tier::Quick { 70_000 } else { 3_000_000 });
+        set_limit(if tier == Tier::Quick { 70_000 } else { 250_000 });
         for &a in &bases {
             for &n in &ns {
                 let out = powi(a, n);
